@@ -730,7 +730,16 @@ def reuse_family(ck):
             out = ft.reduce(np.kron, l) @ out
         return out
 
-    for B, n in ((StandardBackend, 5), (EfficientBackend, 8), (BackendForOnes, 7), (BackendForOnes, 9)):
+    from quantum_gates._simulation.backend import BinaryBackend
+
+    class BinaryAsLayers:            # the index-based backend fed the same layers item by item, ONE backend object for all calls
+        __name__ = "BinaryBackend"
+        def __init__(self, n): self.b = BinaryBackend(n); self.n = n
+        def statevector(self, layers, psi):
+            return self.b.statevector([[m, [k]] for l in layers for k, m in enumerate(l)], psi)
+    BinaryAsLayers.__name__ = "BinaryBackend"
+
+    for B, n in ((StandardBackend, 5), (EfficientBackend, 8), (BackendForOnes, 7), (BackendForOnes, 9), (BinaryAsLayers, 3), (BinaryAsLayers, 5)):
         be = B(n)
         mats = [np.eye(2, dtype=complex) if k % 2 == 0 else pperm(2) for k in range(n)]     # alternating identity / non-identity
         layers = [list(mats), [pperm(2) for _ in range(n)]]
